@@ -238,7 +238,8 @@ def run(chk):
         chk.count('histories')
         chk.case(('hist', h['digest']), sample={'part': 'hist', 'ops': h['ops']} if h['k'] < 3 else None)
         if ans.startswith('SYS bad-request'):
-            raise common.InfraError('driver rejected a SYS request: ' + ans[:200])
+            chk.mismatch('what the implementation produced cannot be expressed as a model request (driver: bad-request)', ans[:200], replay)
+            continue
         if ans != 'SYS ok':
             chk.mismatch('parameter-world model = implementation (set_prms / reset_prms / construct)', ans[:400], replay)
     return None
